@@ -495,6 +495,12 @@ def c17_oracle(sc):
                         klass = "track-method-unchanged-content"
                     elif it[1].get("f") and not fixed("P42") and sum(1 for q in set(a["recs"]) if addr_of(a["recs"][q], q) == ad) > 1:
                         klass = "forced-duplicate"
+                    elif it[1].get("f") and not newly and m == "hardlink" and kind_ok(b, p, "hardlink", ad) is None and any(
+                            q != p and q in a["recs"] and addr_of(a["recs"][q], q) == ad and (q not in b["recs"] or b["recs"][q][0] != a["recs"][q][0])
+                            for q in it[2]):
+                        # P42c: track --force carries in only the targets whose content changed; one of them has the address of
+                        # this UNCHANGED target (a proper hard link before the command) and replaced the object
+                        klass = "forced-replace-detaches-unchanged-target"
                     bad.append((j, "track %s of %s: %s" % (it[1].get("m") or "(default %s)" % m, p, what), klass))
                 else:
                     dirty[p] = False
